@@ -3,6 +3,7 @@
    own class) and variables (latest assignment) are definitional in any reference model and are exercised end to
    end, as are declared return types.  Proofs in InferP.v. *)
 From RT Require Import Model.Infer Proofs.InferP.
+From RT Require Import Model.ExecType Proofs.ExecTypeP.
 
 (* a hash lookup with a literal key has the type stored last under that key, for every hash built by a literal and
    by h[k] = v in any order, and for every stored type — NilClass included *)
@@ -27,6 +28,46 @@ Theorem C09_nil_as_missing_refuted :
   let h := hash_of [("a", MakeNil); ("b", MakeIntLit)] in
   hash_reference h "a" = MakeNil /\ hash_reference_nil_as_missing h "a" <> MakeNil.
 Proof. exact nil_as_missing_refuted. Qed.
+
+(* "a certainly-valid builtin call has its declared return type with Self, Unify, OptionalUnify, Argument, SelfArray,
+   KeyValueArray and union returns resolved as documented": on the model of calculateExecutionType (tied to the code
+   through a hook; the tie also checks that the receiver is left as it was) *)
+Theorem C09_return_self : forall recv blk args ret, String.eqb (t_meth ret) "new" = false -> t_tag ret = SELF ->
+  ExecType recv args blk ret = recv.
+Proof. exact resolve_self. Qed.
+Print Assumptions C09_return_self.
+Theorem C09_return_unify : forall recv blk args ret, String.eqb (t_meth ret) "new" = false -> t_tag ret = UNIFY ->
+  ExecType recv args blk ret = UnifyVariants recv.
+Proof. exact resolve_unify. Qed.
+Print Assumptions C09_return_unify.
+Theorem C09_return_optional_unify : forall recv blk args ret, String.eqb (t_meth ret) "new" = false -> t_tag ret = OPTIONAL_UNIFY ->
+  ExecType recv args blk ret = MakeUnifiedT (t_vars (AppendVariant recv MakeNil)).
+Proof. exact resolve_optional_unify. Qed.
+Print Assumptions C09_return_optional_unify.
+Theorem C09_return_argument : forall recv blk args ret, String.eqb (t_meth ret) "new" = false -> t_tag ret = ARGUMENT ->
+  ExecType recv args blk ret = match args with [] => MakeNil | [a] => a | _ => array_of args end.
+Proof. exact resolve_argument. Qed.
+Print Assumptions C09_return_argument.
+Theorem C09_return_self_array : forall recv blk args ret, String.eqb (t_meth ret) "new" = false -> t_tag ret = SELF_ARRAY ->
+  ExecType recv args blk ret = MakeArray (t_vars recv).
+Proof. exact resolve_self_array. Qed.
+Print Assumptions C09_return_self_array.
+Theorem C09_return_keyvalue_array : forall recv blk args ret, String.eqb (t_meth ret) "new" = false -> t_tag ret = KEYVALUE_ARRAY ->
+  ExecType recv args blk ret = array_of (map get_key_value (t_vars recv)).
+Proof. exact resolve_keyvalue_array. Qed.
+Print Assumptions C09_return_keyvalue_array.
+Theorem C09_return_union : forall recv blk args ret, String.eqb (t_meth ret) "new" = false -> t_tag ret = UNION ->
+  ExecType recv args blk ret = MakeUnifiedT (map (exec_type (ty_size ret) recv args blk) (t_vars ret)).
+Proof. exact resolve_union. Qed.
+Print Assumptions C09_return_union.
+
+Example C09_return_example :
+  let recv := MakeArray [MakeIntLit; MakeString "s"] in
+  let U := NewT "Unify" UNIFY (VStr "unify") in
+  let O := NewT "OptiionalUnify" OPTIONAL_UNIFY (VStr "optionalUnify") in
+  (TypeToString (ExecType recv [] zero_ty U), TypeToString (ExecType recv [] zero_ty O), TypeToString (ExecType recv [] zero_ty (MakeUnion [O; MakeBool])))
+  = ("Union<Integer String>", "Union<Integer String NilClass>", "Union<Integer String NilClass Bool>").
+Proof. vm_compute. reflexivity. Qed.
 
 Example C09_example :
   t_vars (fold_left (fun acc v => AppendVariant acc v) [MakeIntLit; MakeString "s"; MakeIntLit; MakeFloatLit; MakeString "t"] (MakeUnion []))
